@@ -124,6 +124,8 @@ class VersionEval:
         if not is_node(e) or depth > 30:
             return None
         k = e["k"]
+        if k == "VerImp":
+            return None
         if k == "VerOr":
             # disjunction of conjunctions of version guards synthesised at a control-flow join (flow.join)
             import flow as _flow
@@ -239,7 +241,7 @@ class VersionEval:
 
     def is_version_expr(self, e):
         """True if e mentions the version object at all"""
-        if is_node(e) and e["k"] == "VerOr":
+        if is_node(e) and e["k"] in ("VerOr", "VerImp"):
             return True
         for n in walk(e):
             if n["k"] == "Call" and (n.get("cls") == NIV or n.get("fid") in self.helpers):
